@@ -83,6 +83,12 @@ def gen_csv(rng):
         patterns.append(pat)
     if rng.random() < 0.3:
         patterns.append([""] * n_rank)  # a voter who left every rank blank: one ballot of explicit blanks
+    if n_rank >= 2 and rng.random() < 0.1:
+        # distinct patterns whose cells coincide once joined with a separator: ("Brown,Lee","Kim") vs ("Brown","Lee,Kim")
+        sep = rng.choice([",", " ", ";", "|"])
+        a, b, c = rng.sample(["Brown", "Lee", "Kim", "Ann", "Bo"], 3)
+        patterns.append([a + sep + b, c] + [""] * (n_rank - 2))
+        patterns.append([a, b + sep + c] + [""] * (n_rank - 2))
     rows = []
     id_style = rng.choice(["str", "int"])
     only_ranks = not (has_id or has_w or has_extra)
